@@ -16,6 +16,7 @@ From LZ4V Require Import Gen.Consts Spec.BlockSpec Model.Mem Model.Dec Model.Dec
 From LZ4V Require Import Model.DecStream.
 From LZ4V Require Import Proofs.DecRefineBase Proofs.DecRefineSafe Proofs.DecRefineTop Proofs.DecRefineApi Proofs.DecStreamRefine.
 From LZ4V Require Import Proofs.DecConverse Proofs.DecConverseTop.
+From LZ4V Require Import Proofs.FastCap Proofs.InplaceMargin.
 Import ListNotations.
 Local Open Scope Z_scope.
 
@@ -117,3 +118,30 @@ Example C05_converse_nonvacuous :
       /\ (let '(r, m, k) := decompress_safe true (mem_of_list 0 B) 10 30 empty in (r, load_list m 0 11))
          = (11, [97; 97; 97; 97; 97; 97; 98; 99; 100; 101; 102])).
 Proof. vm_compute. repeat split; reflexivity. Qed.
+
+(* In-place decoding with the documented margin (lz4.h: the block lies at the end of a buffer of
+   LZ4_DECOMPRESS_INPLACE_BUFFER_SIZE(d) = d + LZ4_DECOMPRESS_INPLACE_MARGIN(d) bytes and is decoded
+   to its start).  For EVERY block of the specification that does not expand (the presumption
+   stated in lz4.h) and every point between two sequences, the distance from the output cursor to
+   the unread input ([cursor_gap], computed from the encoder's lengths and the margin macro read from
+   lz4.h by the translator) is at least what LZ4_wildCopy32 writes past the end of a match of any
+   length [len] (Model.Mem.wild32_len, the write extent the decoder model uses), so the speculative
+   writes of the decoder never reach input it has not read yet.  The decoder model keeps source and
+   destination in separate memories; that aliasing them at this distance is harmless is what this
+   theorem contributes, the run of the real decoder inside one buffer is the harness's `inplace`
+   family. *)
+Theorem C05_inplace_margin :
+  forall (done rest : list seq) (last : list Z) (o len : Z),
+    mlens_ok rest -> enc_len (done ++ rest) last <= total_len (done ++ rest) last -> 0 < len ->
+    wild32_len o (o + len) - len <= cursor_gap done rest last.
+Proof. exact inplace_margin_sufficient. Qed.
+Print Assumptions C05_inplace_margin.
+
+(* the bound is attained: 16 literals | offset 16, length 33 | 65 literals (finding F16) leaves a gap
+   of exactly 31 after the match, which is what the copy of 33 bytes overshoots by *)
+Example C05_inplace_tight :
+  let q := mkSeq (repeat 7 16) 16 33 in let last := repeat 9 65 in
+  mlens_ok [] /\ enc_len [q] last <= total_len [q] last
+  /\ cursor_gap [q] [] last = 31 /\ wild32_len 16 (16 + 33) - 33 = 31
+  /\ Z.of_nat (length (encode_block [q] last)) = enc_len [q] last.
+Proof. split; [constructor|]. vm_compute. repeat split; try reflexivity; discriminate. Qed.
